@@ -1041,14 +1041,9 @@ impl<T: PackedInt> IntVec<T> {
             return CompressionStrategy::MinMax { min_val, bit_width };
         }
 
-        // For slightly larger small datasets, use optimized block compression
-        // Use 64 blockUnits (not 128) for better small dataset performance
-        CompressionStrategy::BlockBased {
-            block_size: BlockSize::Block64,  // 🚀 64 units for small data
-            offset_width: bit_width.min(8),  // Limit offset width for efficiency
-            sample_width: 4,                 // Fixed small sample width
-            is_sorted,                       // Use actual sorted detection
-        }
+        // For slightly larger small datasets, use block compression with the offset and
+        // sample widths measured from the data (fixed widths would truncate larger values)
+        Self::analyze_block_based(values, is_sorted)
     }
 
     /// 🚀 BULK-OPTIMIZED: Fast strategy analysis for bulk construction
@@ -1390,12 +1385,14 @@ impl<T: PackedInt> IntVec<T> {
         let index_capacity = ((index_bytes * 103) / 64).max(index_bytes);
         let index_aligned = (index_capacity + 15) & !15;
         
-        let mut index_data = vec![0u8; index_aligned];
+        // Index layout: sample_min (8 bytes, little endian) followed by the packed samples
+        let mut index_data = vec![0u8; 8 + index_aligned];
+        index_data[..8].copy_from_slice(&sample_min.to_le_bytes());
         let mut bit_offset = 0;
         
         for &sample in &samples {
             let offset_sample = sample - sample_min;
-            self.write_bits_bulk(&mut index_data, offset_sample, bit_offset, sample_width)?;
+            self.write_bits_bulk(&mut index_data[8..], offset_sample, bit_offset, sample_width)?;
             bit_offset += sample_width as usize;
         }
 
@@ -1861,12 +1858,14 @@ impl<T: PackedInt> IntVec<T> {
         let index_bytes = (index_bits + 7) / 8;
         let index_aligned = (index_bytes + 15) & !15;
         
-        let mut index_data = vec![0u8; index_aligned];
+        // Index layout: sample_min (8 bytes, little endian) followed by the packed samples
+        let mut index_data = vec![0u8; 8 + index_aligned];
+        index_data[..8].copy_from_slice(&sample_min.to_le_bytes());
         let mut bit_offset = 0;
         
         for &sample in &samples {
             let offset_sample = sample - sample_min;
-            self.write_bits(&mut index_data, offset_sample, bit_offset, sample_width)?;
+            self.write_bits(&mut index_data[8..], offset_sample, bit_offset, sample_width)?;
             bit_offset += sample_width as usize;
         }
 
@@ -2053,10 +2052,16 @@ impl<T: PackedInt> IntVec<T> {
         let block_idx = index / block_units;
         let offset_in_block = index % block_units;
 
-        // Get sample (block base value)
+        // Get sample (block base value): stored relative to sample_min, which leads the index
         let index_data = self.index.as_ref()?;
+        if index_data.len() < 8 {
+            return None;
+        }
+        let mut min_bytes = [0u8; 8];
+        min_bytes.copy_from_slice(&index_data[..8]);
+        let sample_min = u64::from_le_bytes(min_bytes);
         let sample_bit_offset = block_idx * sample_width as usize;
-        let sample_offset = self.read_bits(index_data, sample_bit_offset, sample_width).ok()?;
+        let sample_offset = sample_min + self.read_bits(&index_data[8..], sample_bit_offset, sample_width).ok()?;
 
         // Get offset within block  
         let data_bit_offset = index * offset_width as usize;
